@@ -1,9 +1,17 @@
-// raftmc — E7: explicit-state search over real raft.RawNode instances.
+// raftmc — E7: explicit-state search over real raft.RawNode instances (property C15).
 //
-// cluster.go: the simulated group. One raft.RawNode + raft.MemoryStorage per member, a pool
-// of in-flight messages, the two history variables (leaderOf, commit ledger) and the event
-// alphabet. Every event is one call into the real library followed by the complete handling
-// of the Ready structs it produces (persist, send, apply, advance).
+// cluster.go: the simulated group.
+//
+//	live    one raft.RawNode + raft.MemoryStorage + the application state raftexample keeps
+//	        next to them; feed() is the only place the library is called: one input, then the
+//	        complete handling of the Ready structs it produces (persist, send, apply, Advance)
+//	node    immutable observation of a member after an input history (what the invariants and
+//	        the state key read)
+//	sim     owns the live objects; memoises node-level transitions per input history and
+//	        rebuilds a RawNode in a given history state by re-running that history
+//	cluster one global state: nodes, pool of in-flight messages, partition, budgets used and
+//	        the two history variables (leaderOf, commit ledger); step() is the transition
+//	        function of the search
 package main
 
 import (
